@@ -913,6 +913,10 @@ func (d *Decoder) DecodeNested(m interface{}) error {
 	}
 	switch tv := m.(type) {
 	case Unmarshaler:
+		// like Unmarshal(): Gogo's generated Unmarshal methods merge into the existing contents
+		if r, ok := m.(interface{ Reset() }); ok {
+			r.Reset()
+		}
 		if err := tv.Unmarshal(d.p[d.offset+n : d.offset+n+nb]); err != nil {
 			return err
 		}
